@@ -1,0 +1,31 @@
+//! Verification hooks (feature `verif`): thin public wrappers over crate-private
+//! port graph helpers.
+#![allow(missing_docs)]
+
+use portgraph::{NodeIndex, PortGraph, PortIndex, PortOffset};
+
+use crate::HashMap;
+
+use super::indexing::PGIndexKey;
+
+pub fn verif_line_partition(
+    graph: &PortGraph,
+    root: NodeIndex,
+) -> Vec<Vec<(PortIndex, PortIndex)>> {
+    crate::utils::portgraph::line_partition(graph, root)
+}
+
+pub fn verif_walk_path(
+    graph: &PortGraph,
+    start: NodeIndex,
+    start_offset: PortOffset,
+) -> Vec<(Option<PortIndex>, NodeIndex, Option<PortIndex>)> {
+    super::indexing::walk_path(graph, start, start_offset).collect()
+}
+
+pub fn verif_find_root_candidates(
+    graph: &PortGraph,
+    bindings: &HashMap<PGIndexKey, NodeIndex>,
+) -> Vec<NodeIndex> {
+    super::root_candidates::find_root_candidates(graph, bindings)
+}
